@@ -163,3 +163,8 @@ var (
 	rAgB = u.F("rAgB", "{B*g}", "A")           // A needs group of B
 	rBgC = u.F("rBgC", "C", "B", u.Group("g")) // group member B needs C
 )
+
+var (
+	pGG  = u.F("pGG", "{A*g;A*h}", "C")        // two group fields in one object
+	fAgC = u.F("fAgC", "C", "A", u.Group("g")) // member of g that needs C
+)
